@@ -357,6 +357,23 @@ WalkCrash(d, j) ==
         /\ Log([op |-> "walkcrash", d |-> d, j |-> j, res |-> "ok"])
   /\ UNCHANGED <<blk, n, ltip, dev, pruned>>
 
+(* C05: the (j+1)-th storage write of a walk fails (j < number of writes of its block phase): the walk reports
+   failure and the node is left with what the first j writes persisted (nothing for j = 0) *)
+WalkFault(d, prune, j) ==
+  /\ d \in 1..n
+  /\ \E w \in {WalkSteps(CurRec, d, prune, <<>>, FALSE)} :
+     /\ j < Len(w.steps)
+     /\ IF j = 0 THEN UNCHANGED <<ptr, utxo, zu, zd, total, irr, pool, applied, pruned>>
+        ELSE \E f \in {w.steps[j]} :
+             /\ Set(f.s) /\ ptr' = f.ptr /\ pool' = f.pool /\ irr' = f.irr
+             /\ applied' = applied \cup {w.steps[i].ptr : i \in 1..j}
+             /\ pruned' = (pruned \/ (prune /\ ptr # f.ptr))
+     /\ Log([op |-> "walk", d |-> d, prune |-> prune, fault |-> j, res |-> "fail"])
+  /\ UNCHANGED <<blk, n, ltip, dev>>
+WalkBlockWrites(d, prune) == Len(WalkSteps(CurRec, d, prune, <<>>, FALSE).steps)
+(* the single write of any other operation fails: nothing changes *)
+OpFault(o, r) == UNCHANGED <<blk, n, ltip, ptr, utxo, zu, zd, total, irr, pool, dev, applied, pruned>> /\ Log([op |-> o, fault |-> 0, res |-> r])
+
 (* ---- PlayForMiner: second half of Mine as a step of its own (the first half is a block confirmation);
    the harness records a mined block as these two events, so that the crash point between the two
    storage writes of Mine is an ordinary state of the specification ---------------------------------- *)
